@@ -7,6 +7,7 @@ a list of user actions (one "user action group" that belongs together) or None w
 apply to the current document. Profiles choose op weights (swarm style: a random subset per run).
 """
 import json
+import os
 
 from . import fx
 
@@ -859,14 +860,21 @@ def op_trigger_column(g, dv, protected):
   f = "(value if isinstance(value, (int, float)) else 0) + 1"
   info = {"type": "Numeric", "isFormula": False, "formula": f, "recalcWhen": when}
   _ = nums
-  cid = g.new_col_id("t")
-  acts = [["AddColumn", t.tableId, cid, info]]
-  if chosen:
-    # recalcDeps are set by a separate metadata update, as the Grist client does. (Passing an
-    # encoded list inside AddColumn's col_info stores alt text and fails after the engine's
-    # rollback scope: finding F-p, explored under C04 only.)
-    acts.append(["ModifyColumn", t.tableId, cid, {"recalcDeps": ["L"] + sorted(c.ref for c in chosen)}])
-  return acts
+  # An existing trigger column is (re)configured instead, half of the time. recalcDeps are set by
+  # an update of the metadata record, as the Grist client does: ModifyColumn cannot carry a list
+  # value, and an encoded list inside AddColumn's col_info is stored as alt text and fails after
+  # the engine's rollback scope (an instance of finding F-l).
+  existing = [c for tt in data_tables(dv) for c in tt.user_cols() if c.is_trigger]
+  if existing and g.rng.random() < 0.5:
+    c = g.rng.choice(existing)
+    pool = [x for x in c.table.user_cols() if not x.isFormula]
+    picked = g.rng.sample(pool, min(len(pool), g.rng.randint(0, 2)))
+    upd = {"recalcDeps": (["L"] + sorted(x.ref for x in picked)) if picked else None}
+    if g.rng.random() < 0.4:
+      upd["recalcWhen"] = g.rng.choice([0, 1, 2])
+    return [["UpdateRecord", "_grist_Tables_column", c.ref, upd]]
+  _ = chosen
+  return [["AddColumn", t.tableId, g.new_col_id("t"), info]]
 
 
 OPS = {
@@ -941,6 +949,7 @@ def gen_user_actions(g, dv, weights, protected=None, tries=12):
   return None, None
 
 
+MIX_SUMMARY_OPS = not os.environ.get("GSIM_NO_MIX_SUMMARY_OPS")
 RECORD_OPS = {"add_records", "update_records", "remove_records"}
 SUMMARY_OPS = {"add_summary", "update_summary", "detach_summary", "add_summary_formula"}
 
@@ -1023,8 +1032,7 @@ def gen_bundle(g, dv, weights, width=None):
   """A bundle of 1..width user-action groups, all generated against the same Sigma. To stay inside
   D0 within the bundle: columns that an earlier group starts using as key/sort/group-by become
   protected for later groups; a table touched by a schema op is not used by later groups (its
-  names may be stale); summary ops only go on tables no other group of the bundle touches (mixing
-  record edits and summary regrouping in one bundle is known finding F-s, explored under C01)."""
+  names may be stale); summary ops only go on tables no other group of the bundle touches."""
   protected = fx.used_as_index(dv)
   width = width or g.rng.choice([1, 1, 1, 2, 3])
   names, actions = [], []
@@ -1037,9 +1045,9 @@ def gen_bundle(g, dv, weights, width=None):
       ts = tables_of(dv, a)
       if ts & schema_touched:
         continue
-      if not g.cfg.get("mix_summary_ops") and names and (
+      if not g.cfg.get("mix_summary_ops", MIX_SUMMARY_OPS) and names and (
           n in SUMMARY_OPS or any(nm in SUMMARY_OPS for nm in names)):
-        # summary (re)grouping shares a bundle with nothing else (finding F-s)
+        # (off by default) summary (re)grouping shares a bundle with nothing else
         continue
       if n in SUMMARY_OPS and ts & all_touched:
         continue
